@@ -204,6 +204,8 @@ class Ctx:
         self.callres = None
         self.stop_at = None          # {bb: n}: end the path (kind "cut") on the n-th arrival at bb in the top frame
         self.vmcell = None
+        self.stmt_hook = None
+        self.inline_filter = None      # name -> bool: which crate-local callees are inlined (others are havoc'd in havoc mode)
         self.stats = None
 
     # -- choices / solver ---------------------------------------------------------------
@@ -240,6 +242,32 @@ class Ctx:
             raise PathEnd("infeasible")
         if not z3.is_true(cond):
             self.pc.append(cond)
+
+    _vars_cache = {}
+
+    def _vars_of(self, e):
+        k = e.get_id()
+        c = Ctx._vars_cache
+        if k in c:
+            return c[k][0]
+        out, stack, seen = set(), [e], set()
+        while stack:
+            x = stack.pop()
+            i = x.get_id()
+            if i in seen:
+                continue
+            seen.add(i)
+            if z3.is_const(x) and x.decl().kind() == z3.Z3_OP_UNINTERPRETED:
+                out.add(x.decl().name())
+            else:
+                stack.extend(x.children())
+        c[k] = (out, e)
+        return out
+
+    def unconstrained(self, var):
+        """does the path condition not mention z3 constant `var` at all?"""
+        name = var.decl().name()
+        return not any(name in self._vars_of(c) for c in self.pc)
 
     def branch(self, conds):
         """conds: list of z3 Bool (mutually exclusive, exhaustive). Returns chosen index."""
@@ -307,7 +335,14 @@ class Ctx:
                 self.assume(z3.ULT(d, z3.BitVecVal(len(vs), 64)))
             if d is not None:
                 # pick among the variants the path condition still allows
-                k = self.branch([d == z3.BitVecVal(i, 64) for i in range(len(vs))])
+                range_only = [c for c in self.pc if d.decl().name() in self._vars_of(c)]
+                if all(str(c) == str(z3.simplify(z3.ULT(d, z3.BitVecVal(len(vs), 64)))) or c.get_id() == z3.ULT(d, z3.BitVecVal(len(vs), 64)).get_id()
+                       for c in range_only):
+                    # nothing but its range is known: every variant is feasible, no solver calls needed
+                    k = self.choose(len(vs))
+                    self.assume(d == z3.BitVecVal(k, 64))
+                else:
+                    k = self.branch([d == z3.BitVecVal(i, 64) for i in range(len(vs))])
             else:
                 k = self.choose(len(vs))
             v.variant = vs[k][0]
@@ -711,6 +746,8 @@ class Ctx:
 
     def exec_stmt(self, frame, st):
         st = st.rstrip(";")
+        if self.stmt_hook is not None:
+            self.stmt_hook(self, frame, st)
         if st.startswith(("StorageLive", "StorageDead", "nop", "FakeRead", "PlaceMention", "AscribeUserType",
                           "Retag", "Coverage", "ConstEvalCounter", "BackwardIncompatibleDropHint")):
             return
@@ -753,11 +790,19 @@ class Ctx:
         key = normalise(callee)
         for pat, fn in self.summaries:
             if (pat == key) if isinstance(pat, str) else pat.search(key):
-                r = fn(self, args, ret_ty, key)
+                if self.havoc_unknown:
+                    # over-approximating mode: a summary that cannot model this use of the callee degrades to havoc
+                    try:
+                        r = fn(self, args, ret_ty, key)
+                    except (Unsupported, AttributeError, KeyError, TypeError, IndexError):
+                        self.events.append(("havoc", callee))
+                        return self.fresh(ret_ty, "havoc:" + callee[-40:])
+                else:
+                    r = fn(self, args, ret_ty, key)
                 if r is not NotImplemented:
                     return r
         f = self.resolve(callee)
-        if f is not None:
+        if f is not None and (self.inline_filter is None or self.inline_filter(f.name)):
             return self.run_fn(f, args)
         if self.havoc_unknown:
             self.events.append(("havoc", callee))
